@@ -353,6 +353,28 @@ def c18_tree_from_file_reader_cannot_be_copied():
     return all(v is True for v in out.values()), out
 
 
+def _printed(src, std="f2003"):
+    return str(_parser(std)(_reader(src)))
+
+
+def c02_char_selector_placeholder_leak():
+    """D37 (fixed)"""
+    t = _printed("module m\n  character(kind=ck, len=n(1, 2)) :: ca\n  character(n(1, 2), ck) :: ce\nend module m\n")
+    return "F2PY" not in t and t.count("n(1, 2)") == 2, dict(printed=t)
+
+
+def c02_char_selector_kind_len_reordered():
+    """D38: KIND=..., LEN=... printed as LEN=..., KIND=..."""
+    t = _printed("module m\n  character(kind=ck, len=n) :: ca\nend module m\n")
+    return t.upper().index("KIND") < t.upper().index("LEN"), dict(printed=t)
+
+
+def c02_semicolon_join_lowercases_names():
+    """D39: names of ';'-joined statements are lower-cased"""
+    t = _printed("program p\n  a = 1; B = 2; Cc = a + B\nend program p\n")
+    return "B = 2" in t and "Cc = a + B" in t, dict(printed=t)
+
+
 def c14_directive_backslash_at_eof():
     """D9: a directive whose last line ends in a backslash at end of input is lost"""
     r = _reader("x = 1\n#define X \\\n")
